@@ -66,6 +66,7 @@ from ethosu.vela.ethos_u55_regs.ethos_u55_regs import resampling_mode  # noqa: E
 from ethosu.vela.operation import Kernel, NpuBlockType, PointXY  # noqa: E402
 
 REGISTRY.declare_struct(ArchitectureBlockConfig)
+REGISTRY.declare_struct(Kernel)
 
 SHAPE = TStruct(Block, width=TInt(lo=1, hi=65535), height=TInt(lo=1, hi=65535), depth=TInt(lo=1, hi=65535))
 KERNEL = TStruct(Kernel, width=TInt(lo=1, hi=65536), height=TInt(lo=1, hi=256),
@@ -106,4 +107,80 @@ contract(
         "implies(result is not None, (result.layout.ib_start2 - result.layout.ib_start) * arch.shram.bank_size_bytes"
         " >= 2 * ifm_bytes_spec(Block(result.ifm_block.width, result.ifm_block.height, result.ifm_block.depth), ifm_bits))",
     ],
+)
+
+
+# ===== the generator's use of try_block_config (register_command_stream_generator.get_arch_block_config) ==========================
+from ethosu.vela import register_command_stream_generator as rg  # noqa: E402
+from ethosu.vela.api import (NpuActivationOp, NpuBlockTraversal, NpuConv2DOperation, NpuConvDepthWiseOperation, NpuElementWiseOp,  # noqa: E402
+                             NpuElementWiseOperation, NpuPoolingOp, NpuPoolingOperation, NpuResamplingMode)
+
+from contracts.c_generators import ACT, FM, KERNEL as NPU_KERNEL, SHAPE3  # noqa: E402
+
+
+def _tbc_capture(eng, args, kwargs):
+    """try_block_config is verified on its own (above). Here its arguments are captured as a ghost tuple so that the contract can
+    state WHICH validation the generator asks for; the result is an arbitrary non-None configuration object."""
+    names = ["block_config", "arch", "npu_op_type", "ofm_shape", "ifm_shape", "ifm2_shape", "uses_scalar", "ifm_bits", "is_partkernel",
+             "kernel", "lut_banks", "scaled", "ifm_resampling"]
+    vals = dict(zip(names, args))
+    vals.update(kwargs)
+    eng.env["_ghost_tbc"] = VTuple([vals[n] for n in names if n != "arch"])
+    return eng.fresh(TOpaque("ArchitectureBlockConfig"), "arch_block_config")
+
+
+def expected_block_type(npu_op):
+    return (NpuBlockType.ConvolutionMxN if isinstance(npu_op, NpuConv2DOperation) else
+            NpuBlockType.ConvolutionDepthWise if isinstance(npu_op, NpuConvDepthWiseOperation) else
+            (NpuBlockType.ReduceSum if npu_op.sub_op_type == NpuPoolingOp.REDUCE_SUM else NpuBlockType.Pooling)
+            if isinstance(npu_op, NpuPoolingOperation) else NpuBlockType.ElementWise)
+
+
+def fm_scaled(fm):
+    return fm.quantization is not None and fm.quantization.scale_f32 is not None
+
+
+def _op_type(cls, **extra):
+    return TStruct(cls, block_config=SHAPE3, ifm_upscale=TEnum(NpuResamplingMode), activation=TOpt(ACT), ifm=FM, ofm=FM, ifm2=TOpt(FM),
+                   ifm2_scalar=TOpt(F64), kernel=TOpt(NPU_KERNEL), **extra)
+
+
+_GHOST_TBC = TTuple(BLOCK, TEnum(NpuBlockType), BLOCK, BLOCK, TOpt(BLOCK), PyBool, PyInt, PyBool, KERNEL, PyInt, PyBool, TEnum(resampling_mode))
+
+contract(
+    "ethosu.vela.register_command_stream_generator:get_arch_block_config", props=["C15"],
+    variants={
+        "conv2d": dict(npu_op=_op_type(NpuConv2DOperation), block_traversal=TEnum(NpuBlockTraversal), arch=TOpaque("arch")),
+        "depthwise": dict(npu_op=_op_type(NpuConvDepthWiseOperation), block_traversal=TEnum(NpuBlockTraversal), arch=TOpaque("arch")),
+        "pooling": dict(npu_op=_op_type(NpuPoolingOperation, sub_op_type=TEnum(NpuPoolingOp)), block_traversal=TEnum(NpuBlockTraversal), arch=TOpaque("arch")),
+        "elementwise": dict(npu_op=_op_type(NpuElementWiseOperation, sub_op_type=TEnum(NpuElementWiseOp)), block_traversal=TEnum(NpuBlockTraversal),
+                            arch=TOpaque("arch")),
+    },
+    externals={"ethosu.vela.architecture_allocator:try_block_config": _tbc_capture},
+    ghost_results={"_ghost_tbc": _GHOST_TBC},
+    # The block configuration is validated (try_block_config, verified above) for EXACTLY this operation: its own block, shapes,
+    # bit depth, traversal, kernel, LUT use and scaling - so a configuration accepted here is valid for what the hardware will run.
+    ensures=[
+        "_ghost_tbc[0].width == npu_op.block_config.width and _ghost_tbc[0].height == npu_op.block_config.height and _ghost_tbc[0].depth == npu_op.block_config.depth",
+        "_ghost_tbc[1] == expected_block_type(npu_op)",
+        "_ghost_tbc[2].width == npu_op.ofm.shape.width and _ghost_tbc[2].height == npu_op.ofm.shape.height and _ghost_tbc[2].depth == npu_op.ofm.shape.depth",
+        "_ghost_tbc[3].width == npu_op.ifm.shape.width and _ghost_tbc[3].height == npu_op.ifm.shape.height and _ghost_tbc[3].depth == npu_op.ifm.shape.depth",
+        # a second tensor input exists iff ifm2 is given and is not a scalar (a scalar 0 or 0.0 is still a scalar)
+        "(_ghost_tbc[4] is not None) == (npu_op.ifm2 is not None and npu_op.ifm2_scalar is None)",
+        "implies(_ghost_tbc[4] is not None, _ghost_tbc[4].width == npu_op.ifm2.shape.width and _ghost_tbc[4].height == npu_op.ifm2.shape.height"
+        " and _ghost_tbc[4].depth == npu_op.ifm2.shape.depth)",
+        "_ghost_tbc[5] == (npu_op.ifm2_scalar is not None)",
+        "_ghost_tbc[6] == npu_op.ifm.data_type.size_in_bits()",
+        "_ghost_tbc[7] == (block_traversal == NpuBlockTraversal.PART_KERNEL_FIRST)",
+        # the kernel of the operation (1x1, stride 1 when the operation has none)
+        "_ghost_tbc[8].width == (npu_op.kernel.width if npu_op.kernel is not None else 1) and _ghost_tbc[8].height == (npu_op.kernel.height if npu_op.kernel is not None else 1)",
+        "_ghost_tbc[8].stride == PointXY(npu_op.kernel.stride_x if npu_op.kernel is not None else 1, npu_op.kernel.stride_y if npu_op.kernel is not None else 1)",
+        "_ghost_tbc[8].dilation == PointXY(npu_op.kernel.dilation_x if npu_op.kernel is not None else 1, npu_op.kernel.dilation_y if npu_op.kernel is not None else 1)",
+        # two LUT banks are reserved exactly when the activation is a table look-up
+        "_ghost_tbc[9] == (2 if (npu_op.activation is not None and npu_op.activation.op_type == NpuActivationOp.TABLE_LOOKUP) else 0)",
+        # 'scaled' (40-bit accumulators for 16-bit IFMs) iff every feature map of the operation carries a scale
+        "_ghost_tbc[10] == (fm_scaled(npu_op.ifm) and fm_scaled(npu_op.ofm) and (npu_op.ifm2 is None or fm_scaled(npu_op.ifm2)))",
+        "_ghost_tbc[11] == rg.resampling_mode_map[npu_op.ifm_upscale]",
+    ],
+    replay=False,
 )
